@@ -75,7 +75,7 @@ impl Check for C12 {
     type Case = Case;
     const ID: &'static str = "C12";
     fn runs(t: Tier) -> u64 {
-        t.pick(30_000, 2_000_000)
+        t.pick(60_000, 3_000_000)
     }
     fn generate(rng: &mut Rng, _tier: Tier, _idx: u64) -> Case {
         let mut k = rng.sub("knobs");
